@@ -23,5 +23,8 @@ Lemma omap_objargs :
   O.Prev_objargs = ["c.Prev"]%string /\
   O.Key_objargs = ["c.Key"]%string /\
   O.Value_objargs = ["c.Key"]%string /\
-  O.Seek_objargs = ["nil c"; "m == nil"; "m.InorderAfter"; "m.Cursor"]%string.
+  O.Seek_objargs = ["nil c"; "m == nil"; "m.InorderAfter"; "m.Cursor"]%string /\
+  O.Map_First_objargs = ["nil c"; "m == nil"; "m.Root"; "c.Min"]%string /\
+  O.Map_Last_objargs = ["nil c"; "m == nil"; "m.Root"; "c.Max"]%string /\
+  O.Map_Seek_objargs = ["nil c"; "m == nil"; "m.Root"; "c.Min"; "m.InorderAfter"; "m.Cursor"]%string.
 Proof. repeat split; reflexivity. Qed.
